@@ -66,7 +66,7 @@ LEVEL_NOTE = ("trusted: OS/subprocess/tempfile, fake tools, FASTA/Newick parsers
 TECHNIQUE = "Lean 4 proof (invariant over all histories of a state machine) + regenerated guard table + correspondence"
 
 WRAPPERS = ["base", "local", "clustalo", "muscle3", "muscle5", "mafft", "tantan"]
-TOOLS = ["ok", "reorder", "dup_records", "garbage_empty", "garbage_ragged", "garbage_missing", "garbage_length", "garbage_swap",
+TOOLS = ["ok", "reorder", "dup_records", "garbage_empty", "garbage_ragged", "garbage_missing", "garbage_length", "garbage_short", "garbage_swap",
          "garbage_extra", "garbage_header", "garbage_tree",
          "bigout", "exit3",
          "sigkill", "hang", "hang_ignore_term", "missing", "isdir", "nulbyte"]
@@ -2289,7 +2289,7 @@ def _oracle_api(case):
 def _api_cases(quick):
     out = []
     for wr in ("clustalo", "muscle3", "muscle5", "mafft"):
-        combos = [("ok", 3, "prot"), ("reorder", 4, "nuc"), ("exit3", 3, "prot"), ("garbage_swap", 3, "prot")]
+        combos = [("ok", 3, "prot"), ("reorder", 4, "nuc"), ("exit3", 3, "prot"), ("garbage_swap", 3, "prot"), ("garbage_short", 3, "nuc")]
         if wr in ("muscle3", "mafft"):
             combos.append(("reorder", 3, "generic"))
         if not quick:
@@ -2629,7 +2629,7 @@ def _oracle(case):
                 if res != exp:
                     v.append(("C20/result/order-differs-from-tool-output", f"{res} expected {exp}"))
             if (name == "join" and res == "ok" and wrapper in ("clustalo", "muscle3", "muscle5", "mafft")
-                    and tool in ("garbage_empty", "garbage_missing", "garbage_ragged", "garbage_length", "garbage_swap",
+                    and tool in ("garbage_empty", "garbage_missing", "garbage_ragged", "garbage_length", "garbage_short", "garbage_swap",
                                  "garbage_extra", "garbage_header")):
                 v.append((f"C20/result/garbage-accepted/{tool}", f"join() succeeded although the program's output was {tool} ({case['ops']})"))
             if (name == "join" and not refused and ww[1] in ("-", "5") and res == "ERR:TimeoutError"
@@ -2897,6 +2897,10 @@ def cases(rng, tier):
     add(_mk("new local ok 2 prot", ["call get_alignment", "start", "call get_guide_tree"], "no-such-method"))
     add(_mk("new mafft ok 3 prot", ["setgap -1", "callbad set_guide_tree", "call use_super5", "start", "join -", "call get_mask"], "no-such-method"))
     add(_mk("new tantan ok 3 prot", ["call get_alignment_order", "start"], "no-such-method"))
+    # a row that LOST a residue (too few symbols: the trace stays inside the sequence, the alignment would silently lack residues)
+    for wrapper in ("clustalo", "muscle3", "muscle5", "mafft"):
+        for n, kind in ((3, "prot"), (2, "nuc")) + (((4, "generic"),) if wrapper in ("muscle3", "mafft") else ()):
+            add(_mk(f"new {wrapper} garbage_short {n} {kind}", ["start", "tick", "join -", "call get_alignment"], "garbage-short"))
     # corrupted output whose per-row symbol-count errors cancel
     for wrapper in ("clustalo", "muscle3", "muscle5", "mafft"):
         add(_mk(f"new {wrapper} garbage_swap {3 if wrapper != 'mafft' else 4} prot", ["start", "tick", "join -", "call get_alignment"], "garbage-swap"))
@@ -2996,6 +3000,8 @@ def corpus():
         {"kind": "regression", "ops": ["new clustalo ok 3 prot", "chdir", "start", "tick", "join -"]},
         {"kind": "regression", "ops": ["new muscle3 ok 3 prot", "setgap -3 -1", "setgap -5 5", "start", "call get_command"]},
         {"kind": "regression", "ops": ["new muscle5 garbage_swap 3 prot", "start", "join -", "call get_alignment"]},
+        # round 6: the per-row check is an equality (a row with a LOST residue is refused as well), witness of fix c729525f's other half
+        {"kind": "regression", "ops": ["new clustalo garbage_short 3 prot", "start", "tick", "join -", "call get_alignment"]},
         # round 5: an input distance matrix AND full_matrix_calculation on one app: the result is the program's matrix
         {"kind": "regression", "ops": ["new clustalo ok 3 prot", "call set_distance_matrix", "call full_matrix_calculation", "start", "tick",
                                        "join -", "call get_distance_matrix"]},
